@@ -5,6 +5,7 @@ import TeosVerif.Props.C10
 #print axioms Teos.C10.early_add_found_by_block
 #print axioms Teos.C10.second_identical_add_charges_nothing
 #print axioms Teos.C10.slot_updates_commute
+#print axioms Teos.C10.resubmission_charged_once
 #print axioms Teos.C10.updateUser_appts
 #print axioms Teos.C10.topup_and_charge_commute
 #print axioms Teos.C10.no_orphan_record
